@@ -238,6 +238,13 @@ func checkWholeFile(c *Ctx, which string, d []byte, name string) {
 		if msg := checkSizeFieldsFile(bw.Bytes()); msg != "" {
 			fail("C02", "size-field", "a header size field does not match: "+msg, "", "")
 		}
+		// the same two clauses on the SliceWriter path
+		if uint64(len(swOut)) != sizeBefore && !(fr.IsFragmented() && mode == mp4.EncModeSegment) {
+			fail("C02", fmt.Sprintf("size-sw-mode%d", mi), "File.Size() != bytes written by EncodeSW", fmt.Sprintf("Size()=%d written=%d", sizeBefore, len(swOut)), "")
+		}
+		if msg := checkSizeFieldsFile(swOut); msg != "" {
+			fail("C02", "size-field-sw", "a header size field written by EncodeSW does not match: "+msg, "", "")
+		}
 		if mi == 0 {
 			// C01: box-tree mode is lossless modulo the list
 			if !bytes.Equal(maskDontCare(bw.Bytes()), maskDontCare(d)) {
